@@ -25,7 +25,7 @@ type histCase struct {
 // buildShard builds the histories i with i % n == shard on node A, serially.
 func buildShard(e *twinEnv, maxLen, shard, n int) []*histCase {
 	ops := e.mixedOps()
-	hs := enumerateHistories(len(ops), maxLen)
+	hs := enumerateHistories(e.enumCount(), maxLen)
 	var cases []*histCase
 	for i, b := range hs {
 		if i%n != shard {
@@ -40,7 +40,7 @@ func buildShard(e *twinEnv, maxLen, shard, n int) []*histCase {
 // buildAll builds every history on node A (in parallel) and returns them in enumeration order.
 func buildAll(e *twinEnv, maxLen int, limit int) []*histCase {
 	ops := e.mixedOps()
-	hs := enumerateHistories(len(ops), maxLen)
+	hs := enumerateHistories(e.enumCount(), maxLen)
 	if limit > 0 && len(hs) > limit {
 		hs = hs[:limit]
 	}
@@ -121,6 +121,7 @@ func c09Shard(t Tier, shard, n int) (run *report.Run) {
 	cases := buildShard(e, maxLen, shard, n)
 	cases = append(cases, upgradeCases(e, shard, n)...) // histories containing an in-process software upgrade
 	cases = append(cases, longCases(e, shard, n)...)
+	cases = append(cases, cleanupCases(e, shard, n)...)
 	// every genesis: unusual but validation-passing genesis variants, each followed by one block of mixed traffic; they
 	// are compared several times (each execution samples Go's map iteration order anew)
 	gvNames := sortedKeys(genesisVariants)
@@ -205,6 +206,7 @@ func c09Shard(t Tier, shard, n int) (run *report.Run) {
 				{"node-config:minimum-gas-prices=5umed", RunOpts{StopAt: -1, MinGasPrices: "5umed"}},
 				{"node-config:minimum-gas-prices=5umed+checktx", RunOpts{StopAt: -1, MinGasPrices: "5umed", CheckTxBefore: true}},
 				{"node-config:inter-block-cache", RunOpts{StopAt: -1, InterBlockCache: true, QueriesBetween: true}},
+				{"restarted-after-every-commit", RunOpts{StopAt: -1, RestartAfterCommit: true}},
 			}
 			// extra calls are placed at every position of the history's own blocks (the shared setup block's positions
 			// are explored once, with the first history); CheckTx/Simulate precede a DeliverTx, queries go anywhere
